@@ -14,7 +14,7 @@ import (
 )
 
 func checkC01(c *Ctx) {
-	c.explainf("C01 decides containment of Go panics and of process-ending or blocking operations: every call of a builtin function value is made behind the recover barrier (or tabled); outside the barrier, on code reachable from the script-facing entry points, every explicit panic, unchecked type assertion, compiler-unproven index/slice, and integer division is discharged by a local guard or by a table row naming the invariant it rests on; functions callable by scripts never return (nil value, nil error); process exit is reachable only from the command's driver; blocking channel operations reachable from scripts are reported. A function that hands the elements of a script container to a call chain that comes back to itself consults and extends a set of visited containers first (C01-REC): a container that contains itself is data a three-step program can build, and unguarded recursion over it overflows the Go stack. It does not decide termination, nil dereferences in general, or stack exhaustion by deeply nested (acyclic) input.")
+	c.explainf("C01 decides containment of Go panics and of process-ending or blocking operations: every call of a builtin function value is made behind the recover barrier (or tabled); outside the barrier, on code reachable from the script-facing entry points, every explicit panic, unchecked type assertion, compiler-unproven index/slice, and integer division is discharged by a local guard or by a table row naming the invariant it rests on; functions callable by scripts never return (nil value, nil error); process exit is reachable only from the command's driver; blocking channel operations reachable from scripts are reported. A function that hands the elements of a script container to a call chain that comes back to itself consults and extends a set of visited containers first (C01-REC): a container that contains itself is data a three-step program can build, and unguarded recursion over it overflows the Go stack. Nil values with a known origin (a constant nil argument, a reflect type or registry entry that can be absent, a factory that returns no value) are followed to their uses; the methods of registry prototypes guard their fields (C01-NILARG, -NILTYPE, -NILPATH, -REFLECT, -PROTO). A driver loop does not retry a read that failed (C01-RETRY); the set-up of an interpreter reads no process-level state a script wrote under a name of its choosing (C01-SETUP); recursion that the running program feeds (nested Run, macro expansion, include) is counted against a bound (C01-NEST) and no function recurses along the spine of a list (C01-SPINE). It does not decide termination in general, nil dereferences in general, stack exhaustion by deeply nested (acyclic) text, or whether the nesting bound fits the host's stack.")
 	c.assumef("panics below a builtin call come back as errors through CallUserFunction's recover (checked by C01-BAR)")
 	c.assumef("the compiler's prove pass is sound: an index it does not list cannot be out of range")
 	br := c.newBR(c.entryRoots(true), func(f *ssa.Function, in ssa.Instruction) bool {
